@@ -37,6 +37,13 @@ def check_construct(scheme, server, host, root, path, query):
         v.append("environ: %r, expected %r" % (uw, want))
     if ua != want:
         v.append("scope: %r, expected %r" % (ua, want))
+    if not v:
+        # ... and it must have exactly the path and query it was built from (servers hand over the DECODED path: '?' or
+        # '#' inside it belongs to the path)
+        sp0 = urlsplit(ua)
+        from urllib.parse import unquote
+        if unquote(sp0.path) != root + path or sp0.query != query:
+            v.append("built from path %r query %r but parses as path %r query %r fragment %r" % (root + path, query, sp0.path, sp0.query, sp0.fragment))
     if not v and host is None:
         # the URL must parse back into the components it was built from
         sp = urlsplit(ua)
@@ -144,6 +151,15 @@ def bounded(tier, seed):
                     if v and len(failures) < 10:
                         failures.append({"inputs": {"kind": "construct", "scheme": scheme, "server": list(server), "host": host,
                                                     "root": root, "path": path, "query": query}, "violated": v})
+    # a decoded path that contains URL delimiters (known finding: pasted into the URL unquoted)
+    for path in ("/a?b", "/a#b", "/a?b#c"):
+        for query in ("", "x=1"):
+            evals += 1
+            v = check_construct("http", ("h.example", 80), "pub.example", "", path, query)
+            if v and sum(1 for f in failures if f["inputs"].get("region") == "decoded-path-with-url-delimiters") < 2:
+                failures.append({"inputs": {"kind": "construct", "scheme": "http", "server": ["h.example", 80], "host": "pub.example",
+                                            "root": "", "path": path, "query": query, "region": "decoded-path-with-url-delimiters"},
+                                 "violated": v[:2]})
     urls = []
     for scheme in ("http", "https", "ws"):
         for host in ("h", "1.2.3.4", "[::1]"):
